@@ -6,6 +6,7 @@ import (
 	"bufio"
 	"context"
 	"fmt"
+	"net"
 	"os"
 	"path/filepath"
 	"strings"
@@ -239,6 +240,37 @@ func (n *WorkNode) Session(network string) *Client {
 	c := &Client{C: cli, R: bufio.NewReader(cli)}
 	return c
 }
+
+// DirectCmd runs one command on a fresh control session over a synchronous in-memory pipe that involves no
+// simulated time at all (for use inside InjectOnce windows).  It returns the reply line, or "" if the session ended.
+func (n *WorkNode) DirectCmd(line string) string {
+	n.mu.Lock()
+	cs := n.CS
+	n.mu.Unlock()
+	srv, cli := net.Pipe()
+	go cs.RunControlSession(&unixConn{srv})
+	r := bufio.NewReader(cli)
+	if _, err := r.ReadString('\n'); err != nil { // greeting
+		return ""
+	}
+	if _, err := cli.Write([]byte(line + "\n")); err != nil {
+		return ""
+	}
+	reply, _ := r.ReadString('\n')
+	_ = cli.Close()
+	return strings.TrimRight(reply, "\n")
+}
+
+// unixConn reports the address family of the local control socket.
+type unixConn struct{ net.Conn }
+
+type unixAddr struct{}
+
+func (unixAddr) Network() string { return "unix" }
+func (unixAddr) String() string  { return "@direct" }
+
+func (u *unixConn) RemoteAddr() net.Addr { return unixAddr{} }
+func (u *unixConn) LocalAddr() net.Addr  { return unixAddr{} }
 
 // ReadLine reads one line with a deadline in simulated time.
 func (c *Client) ReadLine(timeout time.Duration) (string, error) {
